@@ -357,7 +357,8 @@ def check(case):
     for ed in case["edits"]:
         if ed["label"] not in ("card", "operand", "operator", "rename", "root-rename"):
             continue
-        m2 = build.build(case["model"])
+        # (node-by-node assignment needs a tree: with shared Node objects one assignment would edit two places)
+        m2 = build.build({**case["model"], "share_nodes": False})
         lib(lambda: (m2 == m, hash(m2), sorted(m2.ctcs), sorted(build.walk_objects(m2)[1]), {c: 1 for c in m2.ctcs}))
         e = build.build(ed["model"])
         if not _copy_scalars(m2, e):
